@@ -5,8 +5,11 @@ import snippets, ppgen
 
 PARTIAL = ("proved: nom-packrat's storage is a transparent cache of any function of its key for every capacity and call sequence "
            "(C17_cache_transparent), respects its capacity, and only ever holds forests that tile their own span "
-           "(C17_hits_are_well_formed). The parser's results are NOT a function of the key (the left-recursion guard's flag set "
-           "and the keyword-version stack are not part of it): acceptance of some inputs depends on the capacity -- known "
+           "(C17_hits_are_well_formed); packrat correctness for the interpreter: without left-recursion guard and with state "
+           "actions that change nothing, two memoised runs of any capacities that both finish return the result of the "
+           "memo-free interpreter (C17_capacity_independent_without_hidden_state), and a finished run does not depend on its "
+           "fuel (C17_result_independent_of_fuel). The real parser's results are NOT a function of the key (the guard's flag "
+           "set and the keyword-version stack are outside it): acceptance of some inputs depends on the capacity -- known "
            "finding D12, listed by witness. Everything else is compared across capacities on the implementation")
 
 CAPS_SMALL = ["1", "2", "7", "64", "1024", "none"]
